@@ -2,6 +2,23 @@ package main
 
 // propRules: which rules decide which property.
 var propRules = map[string][]ruleSpec{
+	"C07": {
+		{"R9", "user axes validated (R9a) and normalised (R9b)", ruleR9},
+		{"R3", "clone before Reshape (E2)", ruleR3},
+	},
+	"C08": {
+		{"R9", "user axes/indices validated (R9a) and normalised (R9b)", ruleR9},
+		{"R10", "Repeat only as a guarded stretch", ruleR10},
+		{"R3", "operands not modified (E2)", ruleR3},
+	},
+	"C09": {
+		{"R9", "requested axes normalised before reaching gorgonia (R9b; R9a as notes)", ruleR9},
+		{"R3", "operands not modified (E2)", ruleR3},
+	},
+	"C14": {
+		{"R10", "Repeat only as a guarded stretch", ruleR10},
+		{"R3", "sources never modified (E2)", ruleR3},
+	},
 	"C18": {
 		{"R15", "load path is panic-free", ruleR15},
 		{"R13", "count/dims gate and unsupported types refused (D5, D6)", ruleR13},
